@@ -378,17 +378,12 @@ def serde_range(ctx, rep):
     from .. import flow
     de = [k for k in prog.bodies if k.endswith("::deserialize") and "Range" in k]
     se = [k for k in prog.bodies if k.endswith("::serialize") and "Range" in k]
-    okd = any("core::str::<impl str>::parse" in flow.callee_key(c) for k in de for bb in prog.bodies[k]["blocks"]
-              for c in [flow.callee_of(bb["term"])] if c)
-    fs = prog.bodies.get("<range::Range as std::str::FromStr>::from_str")
-    if fs is not None:
-        if "range::Range::parse" not in [flow.callee_key(c) for bb in fs["blocks"] for c in [flow.callee_of(bb["term"])] if c]:
-            okd = False
+    okd = bool(de) and all(flow.delegates_to_parse(prog, k, "<range::Range as std::str::FromStr>::from_str", "range::Range::parse") for k in de)
     if okd:
         rep.ok("SERDE-RANGE")
     else:
         rep.fail("SERDE-RANGE", "Deserialize for Range|SERDE|delegation", "Deserialize does not go through str::parse / Range::parse (found %s)" % de)
-    oks = any("collect_str" in flow.callee_key(c) for k in se for bb in prog.bodies[k]["blocks"] for c in [flow.callee_of(bb["term"])] if c)
+    oks = bool(se) and all(any("collect_str" in c for c in flow.reach_callees(prog, k)[0]) for k in se)
     if oks:
         rep.ok("SERDE-RANGE")
     else:
